@@ -99,6 +99,9 @@ func genC11(r *Rng, tier string) *C11Scn {
 	}
 	if c.Source != "legacy" {
 		spec, name := genSpec(r, GenLimits{MaxKeys: lim.maxKeys})
+		if r.Chance(0.01) {
+			spec, name = genBigValueSpec(r)
+		}
 		c.Spec, c.Gen = &spec, name
 		keys = spec.Keys
 		mix.Complete = spec.complete()
